@@ -28,8 +28,12 @@ func (f *FakeHAProxy) ServeHTTP(w http.ResponseWriter, r *http.Request) {
 	f.Calls = append(f.Calls, r.Method+" "+r.URL.Path)
 	f.mu.Unlock()
 	w.WriteHeader(http.StatusOK)
-	// not empty: the engine's health check reads the body and treats the EOF of an empty one as a failed check
-	_, _ = w.Write([]byte("ok\n"))
+	if r.Method == http.MethodGet {
+		// health check: not empty - the engine reads the body and treats the EOF of an empty one as a failed check
+		_, _ = w.Write([]byte("ok\n"))
+	}
+	// admin calls (PUT / DELETE): empty body - the engine never closes response bodies, and only a connection whose
+	// response had no body goes back to the idle pool instead of leaking
 }
 
 func (f *FakeHAProxy) Count() int { f.mu.Lock(); defer f.mu.Unlock(); return len(f.Calls) }
@@ -38,6 +42,7 @@ func (f *FakeHAProxy) Count() int { f.mu.Lock(); defer f.mu.Unlock(); return len
 // The ports are those the engine read from HAPROXY_MANAGE_ENDPOINTS_PORT / LUNAR_HEALTHCHECK_PORT at package init.
 func StartFake(ports ...string) *FakeHAProxy {
 	f := &FakeHAProxy{}
+	http.DefaultClient.Timeout = 30 * time.Second // the engine's admin calls: a stuck call must fail, not hang the harness
 	seen := map[string]bool{}
 	for _, p := range ports {
 		if p == "" || seen[p] {
